@@ -297,4 +297,4 @@ func randomFlags(rng *rand.Rand, p float64) Flags {
 }
 
 var sampleTexts = []string{"hello", "a b", "x", "été", "日本語", "α→β", "emoji 🎵 ok", "q\"uote", "back\\slash", "tab\there", "colon: yes", "- dash", "# hash",
-	"'single'", "{brace}", "[1,2]", "long " + "0123456789abcdefghijklmnopqrstuvwxyz0123456789abcdefghijklmnopqrstuvwxyz0123456789abcdefghijklmnopqrstuvwxyz0123456789abcdefghijklmnopqrstuvwxyz", "null", "true", "1", " lead", "trail ", "ñ", "𝄞 clef"}
+	"'single'", "{brace}", "[1,2]", "long " + "0123456789abcdefghijklmnopqrstuvwxyz0123456789abcdefghijklmnopqrstuvwxyz0123456789abcdefghijklmnopqrstuvwxyz0123456789abcdefghijklmnopqrstuvwxyz", "null", "true", "1", " lead", "trail ", "ñ", "𝄞 clef", " ", "\u3000", "  \t ", "大好き", "Život"}
